@@ -105,7 +105,7 @@ Example C14_nonvacuous :
   let c := mk_cfg 5 1000 None [(TRANSIENT, 2)] [] (Some false)
              [false; false; false; false; false; false; false; false; true; true; true] None in
   let e := mk_env [(ORaise {| cl_k := TRANSIENT; cl_ra := None |}, 1);
-                   (ORaise {| cl_k := TRANSIENT; cl_ra := Some 4 |}, 1);
+                   (ORaise {| cl_k := TRANSIENT; cl_ra := Some (HFin 4) |}, 1);
                    (ORaise {| cl_k := TRANSIENT; cl_ra := None |}, 1)] [] [SFin 2; SFin 3] [] [] [] [] [] [] [] in
   map r_name (run_reports MCall c e 0 []) = [N_RETRY; N_RETRY; N_MAX_ATTEMPTS_EXCEEDED] /\
   map r_att (run_reports MCall c e 0 []) = [1; 2; 3] /\
